@@ -4,3 +4,4 @@ import Flodym.Dims
 import Flodym.Array
 import Flodym.SubArray
 import Flodym.Stocks
+import Flodym.History
